@@ -360,8 +360,9 @@ def shape_name(t):
 
 class DirtyRule:
     def inline_ok(self, I, ci, body):
-        # Writer methods call each other (writeln_str -> write_str): follow them
-        return base.self_adt(body) == 'writer::Writer'
+        # Writer methods call each other (writeln_str -> write_str): follow them, and free helpers of the module
+        from .common import pure_helper
+        return base.self_adt(body) == 'writer::Writer' or pure_helper(body, 'writer')
 
     def _cls(self, c):
         return const_int(13) if c == CR else mk_int(x for x in range(256) if x not in (10, 13))
